@@ -249,7 +249,7 @@ def em_op(world, op, rng=None, params=None):
     elif op == 2:  # wrong layout with force_consistency
         j = P.get("wrong", len(pool) - 1) % len(pool)
         d, m = pool[j]
-        how = P.get("how", len(world.log) % 3)
+        how = P.get("how", len(world.log) % 5)
         if how == 0 or lay is None:
             note(f"append(pool{j}, force_consistency=True)")
             c = common.monitored(rec, "append(force_consistency)", em.append, d, force_consistency=True)
@@ -271,8 +271,10 @@ def em_op(world, op, rng=None, params=None):
             # consistency enforcement, so it may be heterogeneous) or a plain list whose first member fits
             fit = [(dd, mm) for dd, mm in pool if mm.layout == lay]
             src = ([fit[0]] if fit else []) + [(d, m)] + ([fit[-1]] if fit else [])
-            source = Emulsion([dd for dd, _ in src]) if how == 1 else [dd for dd, _ in src]
-            note(f"extend({'Emulsion' if how == 1 else 'list'}[{[mm.layout for _, mm in src]}], force_consistency=True)")
+            # (any iterable will do as the source: an emulsion, a list, a generator, an iterator)
+            source = (Emulsion([dd for dd, _ in src]) if how == 1 else [dd for dd, _ in src] if how == 2
+                      else (dd for dd, _ in src) if how == 3 else iter([dd for dd, _ in src]))
+            note(f"extend({ {1: 'Emulsion', 2: 'list', 3: 'generator'}.get(how, 'iterator') }[{[mm.layout for _, mm in src]}], force_consistency=True)")
             n0 = len(em)
             c = common.monitored(rec, "extend(force_consistency)", em.extend, source, force_consistency=True)
             first_bad = next((k for k, (_, mm) in enumerate(src) if mm.layout != lay), None)
@@ -606,6 +608,19 @@ def run_tc_sequence(seq, rec, rng, label=""):
             t = float(rng.choice([0.0, -1.5, 2.25, 7.0])) if not model else float(model[-1][0]) + float(rng.choice([0.5, 1.0, 3.0]))
             if model and rng.random() < 0.3:
                 t = 0.0
+            if rng.random() < 0.25:
+                # a call that is refused (a bare droplet or a list holding None is not an emulsion) and caught by the
+                # caller leaves the time course as it was
+                bad = [None] if rng.random() < 0.5 else make_real(rand_desc(rng, "SphericalDroplet", 2))
+                log.append(f"append({'[None]' if isinstance(bad, list) else 'a bare droplet'}, time={t}) -> refused")
+                cb = common.monitored(rec, "append(invalid)", tc.append, bad, time=t)
+                if cb.ok:
+                    rec.count("invalid_append_accepted")
+                    # accepted after all (a bare droplet may be taken for a one-droplet emulsion): follow it in the model
+                    model.append([t, [md_of(d_) for d_ in tc.emulsions[-1]]])
+                    t = t + 0.25
+                else:
+                    rec.hit("probe:refused-append")
             log.append(f"append(em, time={t})")
             tc.append(em, time=t)
             model.append([t, [m.copy() for m in mm]])
@@ -854,7 +869,7 @@ def gen(rng, kind, tier):
         for _ in range(L):
             op = int(rng.choice(N_EM_OPS, p=_EM_WEIGHTS))
             seq.append(op)
-            params.append({"pool": int(rng.integers(0, 4)), "wrong": int(rng.choice([4, 2])), "how": int(rng.integers(0, 3)), "many": [int(x) for x in rng.integers(0, 4, int(rng.integers(0, 4)))],
+            params.append({"pool": int(rng.integers(0, 4)), "wrong": int(rng.choice([4, 2])), "how": int(rng.integers(0, 5)), "many": [int(x) for x in rng.integers(0, 4, int(rng.integers(0, 4)))],
                            "r": float(rng.choice([-1.0, 0.0, 0.3, 0.5, 1.0])), "slice": [int(rng.integers(0, 3)), None if rng.random() < 0.5 else int(rng.integers(1, 6)), None if rng.random() < 0.7 else 2],
                            "other": int(rng.integers(0, 5)), "dmin": float(rng.choice([0.0, 0.0, -0.3, 0.5])),
                            "i": int(rng.integers(0, 8)), "j": int(rng.integers(0, 8)), "v": float(rng.choice([0.0, 0.25, 0.7, 1.9]))})
@@ -879,11 +894,17 @@ def run(case, rec):
             rec.count(f"em_op:{op}")
     elif kind in ("ex-tc", "rand-tc"):
         rng = core.sub_rng(case.get("seed", 0), "tc", *case["seq"])
-        run_tc_sequence(case["seq"], rec, rng, label=f"{kind} seq={case['seq']}")
+        try:
+            run_tc_sequence(case["seq"], rec, rng, label=f"{kind} seq={case['seq']}")
+        except InvariantBroken as e:
+            rec.check(False, "invariant", f"class invariant broken: {str(e)[:300]}; {kind} seq={case['seq']}")
         rec.evaluated(nontrivial=len(case["seq"]) >= 3)
     else:
         rng = core.sub_rng(case.get("seed", 0), "tr", *case["seq"])
-        run_tr_sequence(case["seq"], rec, rng, label=f"{kind} seq={case['seq']}")
+        try:
+            run_tr_sequence(case["seq"], rec, rng, label=f"{kind} seq={case['seq']}")
+        except InvariantBroken as e:
+            rec.check(False, "invariant", f"class invariant broken: {str(e)[:300]}; {kind} seq={case['seq']}")
         rec.evaluated(nontrivial=len(case["seq"]) >= 3)
 
 
